@@ -111,6 +111,18 @@ def _links(text):
 
 
 def _run_case(ctx, case) -> F.Outcome:
+    if case[0] == "spelled":
+        # the same rename with the notes directory spelled through a symlink / with a '..'
+        H.set_dir_spelling(case[1])
+        try:
+            res = _run_case(ctx, case[2:])
+        finally:
+            H.set_dir_spelling()
+        if not res.ok:
+            res.detail["notes_directory_spelled"] = case[1]
+        if res.nontrivial:
+            res.nontrivial = H.digest(case)
+        return res
     pi, subset = case
     A, B, files = build(ctx.seed, pi, subset)
     zd = Z.make_zdir(files, "c14")
@@ -169,10 +181,19 @@ def _cases(ctx):
             for subset in it.combinations(range(n), k):
                 cases.append([pi, list(subset)])
         cases.append([pi, list(range(n))])
+    # the notes directory spelled through a symlink / with a '..' (names given relative to it)
+    for pi, (A, B) in enumerate(pairs(ctx.seed)):
+        if A.startswith("ABS:"):
+            continue
+        for how in ("symlink", "dotdot"):
+            for subset in ([0], [1, 3], [0, 12], list(range(n))):
+                cases.append(["spelled", how, pi, subset])
     return cases
 
 
 def _sample(ctx, case):
+    if case[0] == "spelled":
+        return dict(_sample(ctx, case[2:]), notes_directory_spelled=case[1])
     A, B, files = build(ctx.seed, case[0], case[1])
     return {"rename": [A, B], "other.zo": files["other.zo"]}
 
